@@ -32,10 +32,43 @@ class FnSpec:
 
 TAGRE = re.compile(r'^\[([A-Za-z0-9_, ]+)\]\s*')
 
+TEMPLATES = {}
+
+def expand_templates(lines, path):
+    """template NAME(a, b) ... end  /  use NAME(x, y): textual clause templates"""
+    out = []
+    i = 0
+    while i < len(lines):
+        m = re.match(r'^template\s+(\w+)\s*\(([^)]*)\)\s*$', lines[i].strip())
+        if m:
+            body = []; i += 1
+            while lines[i].strip() != 'endtemplate':
+                body.append(lines[i]); i += 1
+            TEMPLATES[m.group(1)] = ([a.strip() for a in m.group(2).split(',') if a.strip()], body)
+            out.append(''); out.extend([''] * (len(body) + 1))
+            i += 1; continue
+        m = re.match(r'^(\s*)use\s+(\w+)\s*\((.*)\)\s*$', lines[i])
+        if m:
+            if m.group(2) not in TEMPLATES:
+                raise SyntaxError('%s:%d: unknown template %s' % (path, i + 1, m.group(2)))
+            params, body = TEMPLATES[m.group(2)]
+            from cxxtypes import split_top
+            args = split_top(m.group(3))
+            if len(args) != len(params):
+                raise SyntaxError('%s:%d: template %s takes %d arguments' % (path, i + 1, m.group(2), len(params)))
+            for b in body:
+                t = b
+                for pn, a in zip(params, args):
+                    t = re.sub(r'\b%s\b' % re.escape(pn), a, t)
+                out.append(m.group(1) + t.strip())
+            i += 1; continue
+        out.append(lines[i]); i += 1
+    return out
+
 def parse_file(path):
     specs = []
     cur = None
-    lines = open(path).read().split('\n')
+    lines = expand_templates(open(path).read().split('\n'), path)
     i = 0
     def src(i): return '%s:%d' % (os.path.basename(path), i + 1)
     while i < len(lines):
